@@ -111,12 +111,20 @@ Theorem C01_prescribed_tasks_ran : forall sp, simple_b sp = true -> forall u evs
 Proof. exact den_correct. Qed.
 Print Assumptions C01_prescribed_tasks_ran.
 
+(* ... and the workflow ends in the state the definition prescribes *)
+Theorem C01_prescribed_final_state : forall sp, simple_b sp = true -> forall u evs,
+  forallb plain4 evs = true ->
+  let s := run sp u evs in
+  wf_created s = true -> pend s = [] -> wf_state s = den_verdict sp.
+Proof. exact den_final_state. Qed.
+Print Assumptions C01_prescribed_final_state.
+
 Example C01_prescribed_tasks_ran_nonvacuous :
   let evs := EStart :: drain_evs den_demo (fst (step den_demo init EStart)) 200 in
   let s := run den_demo [] evs in
   simple_b den_demo = true /\ forallb plain4 evs = true /\ wf_created s = true /\ pend s = [] /\
   den den_demo = [1; 1; 2; 2] /\ map (rows_named s) [0; 1; 2; 3] = [1; 1; 2; 2] /\
-  states_named s 2 = [SUCCESS; ERROR] /\ 30 < length evs.
+  states_named s 2 = [SUCCESS; ERROR] /\ wf_state s = CANCELLED /\ den_verdict den_demo = CANCELLED /\ 30 < length evs.
 Proof. exact den_demo_ok. Qed.
 
 (* the unproved part of the property, kept visible: the same for programs with joins *)
